@@ -1,7 +1,42 @@
 //@ C07 — "every range the compiler derives for a sub-expression contains that sub-expression's value at
 //@ every assignment inside the variable ranges".
+@fn BoundsAnalyzer::bounds_of @attr
+#[verifier::exec_allows_no_decreases_clause]
 @fn BoundsAnalyzer::bounds_of -> r
     requires box_wf(*self), exp_fin(*exp),
     ensures
         wf(r),
         forall|env: Env| #[trigger] box_ok(*self, env) ==> (sem(*exp, env) matches Some(v) ==> contains(r, v)),
+@fn BoundsAnalyzer::bounds_of @keep-arms
+    Exp::Number
+    Exp::Variable
+    Exp::Abs
+    Exp::And(_)|Exp::Or(_)|Exp::Not(_)|Exp::Xor(_,_)|Exp::Implies(_,_)|Exp::Iff(_,_)
+    Exp::BinOp
+    Exp::UnOp
+@fn BoundsAnalyzer::bounds_of @entry
+    proof { lemma_exp_fin(*exp); lemma_exp_fin(*exp->BinOp_1); lemma_exp_fin(*exp->BinOp_2); }
+@fn BoundsAnalyzer::bounds_of @tail 6
+    // logic connectives evaluate to 0 or 1
+    proof { assert forall|env: Env| sem(*exp, env) is Some implies #[trigger] sem(*exp, env)->Some_0 == 0real || sem(*exp, env)->Some_0 == 1real by { lemma_logic_01(*exp, env); } }
+@fn BoundsAnalyzer::bounds_of @tail 9
+    // c * e: the interval is scaled by the constant on the left
+    proof { assert forall|env: Env| #[trigger] sem(*exp, env) is Some implies sem(*exp, env) == Some(rmul_s(sem(*rhs, env)->Some_0, rv(*value))) by { lemma_mul_comm(sem(*rhs, env)->Some_0, rv(*value)); } }
+@raw
+pub proof fn lemma_mul_comm(x: real, y: real) ensures rmul_s(x, y) == rmul_s(y, x) { reveal(rmul_s); assert(x * y == y * x) by (nonlinear_arith); }
+pub proof fn lemma_all_01(es: Seq<Exp>, env: Env, is_and: bool, n: int)
+    ensures sem_all(es, env, is_and, n) matches Some(v) ==> v == 0real || v == 1real,
+    decreases n,
+{
+    if n <= 0 || n > es.len() { } else { lemma_all_01(es, env, is_and, n - 1); }
+}
+pub proof fn lemma_logic_01(e: Exp, env: Env)
+    requires e is And || e is Or || e is Not || e is Xor || e is Implies || e is Iff,
+    ensures sem(e, env) matches Some(v) ==> v == 0real || v == 1real,
+{
+    match e {
+        Exp::And(es) => lemma_all_01(es@, env, true, es@.len() as int),
+        Exp::Or(es) => lemma_all_01(es@, env, false, es@.len() as int),
+        _ => {}
+    }
+}
